@@ -69,6 +69,13 @@ func VerifH_C12_MismatchRefused() {
 	o := vSessOptions()
 	root := vCidID("root")
 	roots := []cid.Cid{root}
+	twoRoots := vChoose("twoRoots", 2) == 1
+	var rootB cid.Cid
+	if twoRoots {
+		rootB = vCidID("rootB")
+		vAssume(!rootB.Equals(root))
+		roots = []cid.Cid{root, rootB}
+	}
 	ctx := context.Background()
 	f := newVFile()
 	sc, err := NewReadableWritable(f, roots, o.list()...)
@@ -85,13 +92,20 @@ func VerifH_C12_MismatchRefused() {
 	nlog := len(f.log)
 	o2 := o
 	r2 := roots
-	switch vChoose("mismatch", 4) {
+	switch vChoose("mismatch", 5) {
 	case 0: // a different root
 		other := vCidID("otherRoot")
 		vAssume(!other.Equals(root))
 		r2 = []cid.Cid{other}
+		if twoRoots {
+			r2 = []cid.Cid{other, rootB}
+		}
 	case 1: // an extra root
-		r2 = []cid.Cid{root, vCidID("extraRoot")}
+		r2 = append(append([]cid.Cid{}, roots...), vCidID("extraRoot"))
+	case 4: // same number of roots, all from the file, but one repeated: [A,B] reopened as [A,A]
+		vAssume(twoRoots)
+		r2 = []cid.Cid{root, root}
+		vCover("repeated-root-refused", true)
 	case 2: // different data padding (CARv2 only)
 		vAssume(!o.v1)
 		o2.dataPad = o.dataPad + 3
@@ -105,4 +119,49 @@ func VerifH_C12_MismatchRefused() {
 	vCover("refused-finalized", finalized)
 	vCover("refused-unfinalized", !finalized)
 	_ = carv2.PragmaSize
+}
+
+// VerifH_C12_ResumeOverNullPadding: an abandoned session whose file is followed by null padding
+// (0x00 bytes, e.g. a pre-allocated file) is resumed with ZeroLengthSectionAsEOF; after one more
+// put and Finalize the file is byte-identical to the uninterrupted session's.
+func VerifH_C12_ResumeOverNullPadding() {
+	o := vSessOptions()
+	roots := []cid.Cid{vCidID("root")}
+	ctx := context.Background()
+	opts := append(o.list(), carv2.ZeroLengthSectionAsEOF(true))
+	f := newVFile()
+	sc, err := NewReadableWritable(f, roots, opts...)
+	vAssert("open", err == nil)
+	a := vValidBlockT("a", 1)
+	b := vValidBlockT("b", 1)
+	vNoCollisions([]vEntry{a, b})
+	if vChoose("firstPut", 2) == 1 {
+		vAssert("put-a", sc.Put(ctx, a.c.KeyString(), a.data) == nil)
+	} else {
+		a = vEntry{}
+	}
+	// null padding after the payload written so far
+	npad := 1 + vChoose("nullPad", 3)
+	f.data = append(f.data, make([]byte, npad)...)
+	sc, err = OpenReadableWritable(f, roots, opts...)
+	vAssert("resume-ok", err == nil)
+	vAssert("put-b", sc.Put(ctx, b.c.KeyString(), b.data) == nil)
+	vAssert("finalize", sc.Finalize() == nil)
+
+	g := newVFile()
+	sd, err := NewReadableWritable(g, roots, opts...)
+	vAssert("open2", err == nil)
+	if a.c.Defined() {
+		vAssert("put2-a", sd.Put(ctx, a.c.KeyString(), a.data) == nil)
+	}
+	vAssert("put2-b", sd.Put(ctx, b.c.KeyString(), b.data) == nil)
+	vAssert("finalize2", sd.Finalize() == nil)
+	// the padding beyond what the continued session overwrote may remain as trailing zeros in
+	// CARv1 mode only if nothing was written over it; compare the uninterrupted prefix
+	vAssert("byte-identical-prefix", len(f.data) >= len(g.data) && vBytesEq(f.data[:len(g.data)], g.data))
+	if !o.v1 {
+		vAssert("byte-identical-v2", len(f.data) == len(g.data))
+	}
+	vCover("resumed-over-padding-v1", o.v1)
+	vCover("resumed-over-padding-v2", !o.v1)
 }
